@@ -496,8 +496,16 @@ pub fn real_threads_strategy(purpose: &'static str) -> BoxedStrategy<SchedCase> 
         .boxed()
 }
 
+/// empty and tiny inputs (no frame at all, one short frame)
+fn empty_or_tiny_input() -> BoxedStrategy<(CfgSpec, InputSpec)> {
+    (small_input(1, 1), prop_oneof![3 => Just(0usize), 1 => 1usize..=15]).prop_map(|((cfg, mut inp), len)| {
+        inp.len = len;
+        (cfg, inp)
+    }).boxed()
+}
+
 pub fn c05_strategy() -> BoxedStrategy<SchedCase> {
-    (prop_oneof![3 => small_input(3, 12), 1 => many_frames_input()], prop_oneof![3 => (1usize..=8).prop_map(Some), 1 => Just(None)], env_strategy(), sched_fields(), super::common::src_strategy(), any::<bool>())
+    (prop_oneof![6 => small_input(3, 12), 2 => many_frames_input(), 1 => empty_or_tiny_input()], prop_oneof![3 => (1usize..=8).prop_map(Some), 1 => Just(None)], env_strategy(), sched_fields(), super::common::src_strategy(), any::<bool>())
         .prop_map(|((mut cfg, inp), workers, env, (strategy, pct_depth, choices, s1, s2), src, fe)| {
             cfg.multithread = true;
             cfg.workers = workers;
@@ -520,7 +528,7 @@ pub fn fault_strategy(nframes_max: usize) -> BoxedStrategy<Vec<Fault>> {
 }
 
 pub fn c06_strategy() -> BoxedStrategy<SchedCase> {
-    (small_input(1, 12), 1usize..=5, sched_fields(), super::common::src_strategy(), any::<bool>())
+    (prop_oneof![9 => small_input(1, 12), 1 => empty_or_tiny_input()], 1usize..=5, sched_fields(), super::common::src_strategy(), any::<bool>())
         .prop_flat_map(|((cfg, inp), workers, sf, src, fe)| {
             let nf = (inp.len + cfg.block_size - 1) / cfg.block_size;
             (Just((cfg, inp, workers, sf, src, fe)), fault_strategy(nf))
@@ -528,7 +536,10 @@ pub fn c06_strategy() -> BoxedStrategy<SchedCase> {
         .prop_map(|((mut cfg, inp, workers, (strategy, pct_depth, choices, s1, s2), src, fe), faults)| {
             cfg.multithread = true;
             cfg.workers = Some(workers);
-            SchedCase { purpose: "c06".into(), cfg, inp, src, fill_empty_at_end: fe, faults, env: None, strategy, pct_depth, choices, sched_seed: s1, sched_seed2: s2, packet: if s2 % 5 == 0 { 1 + ((s2 / 5) as usize % 600) } else { 0 }, len_hint: s2 % 3 == 0 }
+            // a tenth of the cases leave the worker count to the environment override
+            let envs = [Some("0"), Some("3"), Some(""), Some("00"), Some("abc"), None];
+            let env = if s1 % 10 == 0 { cfg.workers = None; envs[(s1 / 10 % 6) as usize].map(String::from) } else { None };
+            SchedCase { purpose: "c06".into(), cfg, inp, src, fill_empty_at_end: fe, faults, env, strategy, pct_depth, choices, sched_seed: s1, sched_seed2: s2, packet: if s2 % 5 == 0 { 1 + ((s2 / 5) as usize % 600) } else { 0 }, len_hint: s2 % 3 == 0 }
         })
         .boxed()
 }
@@ -549,7 +560,7 @@ pub fn c03_strategy() -> BoxedStrategy<SchedCase> {
 
 pub fn run_c05(ctx: &Ctx) {
     ctx.rule(
-        "cases = (config with multithread, >= 3-frame input, workers in {1..8, None}, FLACENC_WORKERS in {unset, 1..8, '0', '', 'abc', '-1', ' 2', 2^70, '00'}, schedule = (strategy uniform | PCT | starve-the-hashing-thread | starve-the-feeder | starve-the-workers, choice bytes, seed); a fifth of the cases read from a packet source (short reads in mid-stream); a quarter of the cases have 17..=45 frames (more than the hashing queue and the frame buffers hold)); \
+        "cases = (config with multithread, >= 3-frame input (a tenth: empty or 1..15-sample inputs), workers in {1..8, None}, FLACENC_WORKERS in {unset, 1..8, '0', '', 'abc', '-1', ' 2', 2^70, '00'}, schedule = (strategy uniform | PCT | starve-the-hashing-thread | starve-the-feeder | starve-the-workers, choice bytes, seed); a fifth of the cases read from a packet source (short reads in mid-stream); a quarter of the cases have 17..=45 frames (more than the hashing queue and the frame buffers hold)); \
          every case runs in an executor process under the schedule-owning scheduler (a further family uses real OS threads with 34..90 small blocks and 8..32 workers, optionally with the hashing thread / the feeder / the workers slowed down at their hook points, for code paths that pass no hook point); oracle: bytes(multi under schedule) == bytes(single) == bytes(frame-by-frame assembly) == bytes(multi under a second schedule), no dead-lock, no panic, no thread alive at return; \
          non-trivial = result pushes out of frame order, or a worker popped a buffer while the feeder was blocked on the refill queue, or a real-thread run with more than 16 blocks",
     );
